@@ -40,6 +40,7 @@ let () = register "cache" (fun args ->
         let tid = !opn in
         incr opn;
         let before = int_of_nat (length !st.s_log) in
+        let rw : string option ref = ref None in
         (* goroutines blocked on the channel are served first-come-first-served (Go's sendq) *)
         let asc l = List.sort compare l in
         let all_blocked () = List.map nat_of_int (asc (List.map fst !blocked)) in
@@ -77,6 +78,41 @@ let () = register "cache" (fun args ->
                 Some "ok"
               end
           | [ "sweep" ] -> st := do_sweep cfg !st (nonclear_blocked ()); Some "ok"
+          | [ "sweeprw"; k1; c1; k2; c2; v; cost; ttl; first ] ->
+              (* the sweep visits [first] first; right after its OnEvict callback the other key is re-written by a
+                 re-entrant SetWithTTL (= a client thread scheduled at that point) *)
+              Hashtbl.replace costs (n_of_string v) (z_of_string cost);
+              if first = "none" then (st := do_sweep cfg !st (nonclear_blocked ()); Some "ok")
+              else begin
+                let f = n_of_string first in
+                let (ok, oc) = if f = n_of_string k1 then (n_of_string k2, n_of_string c2) else (n_of_string k1, n_of_string c1) in
+                (match !st.s_apend, !st.s_apc with
+                 | [], AIdle ->
+                     (match mstep cfg !st (LApp (true, [ [ f ] ])) with Some s -> st := s | None -> ());
+                     (* run the applier until it has delivered the first OnEvict of this sweep *)
+                     let evicted s = List.exists (function ECb (None, CbEvict (_, _, v, _)) -> v <> N0 | _ -> false)
+                         (list_take (int_of_nat (length s.s_log) - before) s.s_log) in
+                     let fuel = ref 10000 in
+                     let stuck = ref false in
+                     while not (evicted !st) && not !stuck && !fuel > 0 do
+                       decr fuel;
+                       (match mstep cfg !st (LApp (false, [])) with
+                        | Some s -> if s.s_apc = AIdle && s.s_apend = [] then (st := s; stuck := true) else st := s
+                        | None -> stuck := true)
+                     done;
+                     if evicted !st then begin
+                       let rtid = nat_of_int (2000 + tid) in
+                       (match mstep cfg !st (LCall (rtid, OSet (ok, oc, n_of_string v, Z0, z_of_string ttl))) with
+                        | Some s -> st := run_client cfg (nat_of_int 1000) s rtid
+                        | None -> ());
+                       let okres = List.exists (function ERet (t, _, RBool true) -> t = rtid | _ -> false)
+                           (list_take (int_of_nat (length !st.s_log) - before) !st.s_log) in
+                       rw := Some (Printf.sprintf "rwset:%s:%s" first (sb okres))
+                     end;
+                     st := settle cfg (nat_of_int 1000) !st (nonclear_blocked ())
+                 | _ -> ());
+                Some "ok"
+              end
           | [ "tick"; d ] -> st := do_time cfg !st (z_of_string d); Some "ok"
           | [ "est"; k; v ] -> st := do_est cfg !st (n_of_string k) (z_of_string v); Some ("ok " ^ v)
           | [ "estcheck"; k ] -> Some (string_of_z (!st.s_est (n_of_string k)))
@@ -107,10 +143,11 @@ let () = register "cache" (fun args ->
           match e with
           | ERet (t, _, r) ->
               if int_of_nat t = tid && main = None then res := string_of_result r
+              else if int_of_nat t >= 2000 then ()
               else dones := ("done:" ^ string_of_int (int_of_nat t)) :: !dones
           | ECb (_, c) -> (match tok_of_cb c with Some s -> cbs := s :: !cbs | None -> ())
           | ECall _ -> ()) evs;
-        let extra = List.rev !cbs @ List.sort compare !dones in
+        let extra = List.rev !cbs @ (match !rw with Some x -> [ x ] | None -> []) @ List.sort compare !dones in
         (* blocking calls print ok instead of the unit result *)
         String.concat " " (!res :: extra))
   | _ -> failwith "cache header")
